@@ -184,6 +184,10 @@ class FUnlinkLeaf(CExec):
 
 class FUnlinkAny(CExec):
     family = "F-UNLINK"
+    ASSUMES = [
+        "F-UNLINK: _bucket_set returns -1 / 0 / 1 (its documented contract); the recursive _BTree_set satisfies the clauses proved "
+        "here (induction on the height); the index `min` and the item pointer `d` are the function's locals of those names",
+        "F-UNLINK: activating an object may change any field of THAT object only; a leaf is not its own successor (A6b)"]
 
     @classmethod
     def applies(cls, tu, fn):
